@@ -35,7 +35,7 @@ na = [{"property_id": p["id"], "reason": props.get(p["id"], {}).get("na_reason",
 m = {
     "version": 1,
     "setup_cmd": "./check --setup",
-    "hooks": {"guard": "verif", "enable": "go build -tags verif (file /repo/verif_hooks.go, //go:build verif)",
+    "hooks": {"guard": "verif", "enable": "go build -tags \"verif verif_cNN\" (files /repo/verif_hooks*.go: shared hooks //go:build verif, per-property hooks //go:build verif && verif_cNN; each check builds its own harness binary with its own tag pair)",
               "baseline_off_cmd": baseline, "source_commits": hooks_commits, "add_only": True},
     "engines": [{"name": "lean4-proof+correspondence", "path": "/verif/check",
                  "serves_properties": [c["property_id"] for c in checks],
